@@ -12,7 +12,7 @@ import struct
 from lib import rig, vt
 
 ATT_CID = 4
-FAMILIES = ("plural", "notify_one", "indicate_one", "indicate_one_force", "notify_one_force", "one_eatt_notify", "one_eatt_indicate", "concurrent", "lossy")
+FAMILIES = ("plural", "notify_one", "indicate_one", "indicate_one_force", "notify_one_force", "one_eatt_notify", "one_eatt_indicate", "concurrent", "lossy", "unsolicited")
 
 _DEF = {"e": "", "b": 0, "m": 0, "c": 0, "v": 0, "id": 0, "kind": "", "force": 0, "vlen": 0, "targets": [], "len": 0, "ok": 0, "p": 0, "api": ""}
 
@@ -26,28 +26,36 @@ def ev(e, **kw):
 
 def trace_cfg(nbearers=4):
     return ("SPECIFICATION TraceSpec\nCONSTANTS\n  Bearers = {" + ", ".join(str(i + 1) for i in range(nbearers)) + "}\n  Chars = {1, 2}\n"
-            "  MaxCalls = 100000\n  Lens = {0}\n  Mtu0 = 23\n  MaxWrites = 100000\n  InitVals = {0}\n  Lossy = TRUE\n"
+            "  MaxCalls = 100000\n  Lens = {0}\n  Mtu0 = 23\n  MaxWrites = 100000\n  InitVals = {0}\n  Lossy = TRUE\n  InitLocal = {{}}\n"
             "INVARIANT OneOutstanding\nINVARIANT OnlyOwed\nINVARIANT AllReached\nCHECK_DEADLOCK FALSE\n")
 
 
-def _wrap_fixed(dev, fn):
-    """see every PDU on the ATT fixed channel of dev before bumble does"""
+def _wrap_fixed(dev, fn, after=None):
+    """see every PDU on the ATT fixed channel of dev before bumble does (and, with after, once bumble is done with it)"""
     mgr = dev.l2cap_channel_manager
     orig = getattr(mgr, "fixed_channels", {}).get(ATT_CID) or dev.on_gatt_pdu
 
     def handler(handle, pdu):
         fn(handle, bytes(pdu))
-        return orig(handle, pdu)
+        try:
+            return orig(handle, pdu)
+        finally:
+            if after:
+                after(handle, bytes(pdu))
 
     mgr.register_fixed_channel(ATT_CID, handler)
 
 
-def _wrap_sink(channel, fn):
+def _wrap_sink(channel, fn, after=None):
     orig = channel.sink
 
     def sink(pdu):
         fn(bytes(pdu))
-        return orig(pdu)
+        try:
+            return orig(pdu)
+        finally:
+            if after:
+                after(bytes(pdu))
 
     channel.sink = sink
 
@@ -107,22 +115,35 @@ async def run_scenario(rng, family, seed=0, eatt=(True, True), mtus=(64, 23), ma
         if pdu and pdu[0] in (0x1B, 0x1D) and len(pdu) >= 3:
             h = struct.unpack_from("<H", pdu, 1)[0]
             trace.append(ev("pdu", b=b, kind="ntf" if pdu[0] == 0x1B else "ind", c=handle_to_char.get(h, 0), len=len(pdu) - 3))
+            mark[b] = len(trace)
+
+    def after_client_pdu(b, pdu):
+        # the client's ATT layer is done with the PDU: did it call a subscriber of ours?
+        if pdu and pdu[0] in (0x1B, 0x1D) and len(pdu) >= 3 and b in mark:
+            m = mark.pop(b)
+            p = trace[m - 1]
+            if not any(e["e"] == "cb" and e["b"] == b for e in trace[m:]):
+                trace.append(ev("nocb", b=b, kind=p["kind"], c=p["c"], len=p["len"]))
 
     def on_server_pdu(b, pdu):
         if pdu and pdu[0] == 0x1E:
             trace.append(ev("cfm", b=b))
+        elif len(pdu) >= 5 and pdu[0] == 0x12 and (b, struct.unpack_from("<H", pdu, 1)[0]) in watch:
+            # a CCCD write observed where it takes effect (used when the write races an API call)
+            trace.append(ev("cccd", b=b, c=watch[(b, struct.unpack_from("<H", pdu, 1)[0])], v=struct.unpack_from("<H", pdu, 3)[0] & 3))
 
+    mark, watch = {}, {}
     for i in (0, 1):
-        _wrap_fixed(net[i + 1], lambda handle, pdu, b=2 * i + 1: on_client_pdu(b, pdu))
+        _wrap_fixed(net[i + 1], lambda handle, pdu, b=2 * i + 1: on_client_pdu(b, pdu), lambda handle, pdu, b=2 * i + 1: after_client_pdu(b, pdu))
     by_handle = {sconns[i].handle: 2 * i + 1 for i in (0, 1)}
     _wrap_fixed(srv, lambda handle, pdu: on_server_pdu(by_handle.get(handle, 0), pdu))
     for b, d in bearers.items():
         if d["enh"]:
-            _wrap_sink(d["client"].bearer, lambda pdu, b=b: on_client_pdu(b, pdu))
+            _wrap_sink(d["client"].bearer, lambda pdu, b=b: on_client_pdu(b, pdu), lambda pdu, b=b: after_client_pdu(b, pdu))
             _wrap_sink(d["sbearer"], lambda pdu, b=b: on_server_pdu(b, pdu))
 
     # ---- discovery, subscriber callbacks, CCCD values
-    cccd_proxy = {}
+    cccd_proxy, char_proxy = {}, {}
     for b, d in sorted(bearers.items()):
         client = d["client"]
         await client.discover_services()
@@ -136,10 +157,15 @@ async def run_scenario(rng, family, seed=0, eatt=(True, True), mtus=(64, 23), ma
             def cb(value, b=b, ci=ci, kind="ntf"):
                 trace.append(ev("cb", b=b, kind=kind, c=ci, len=len(value)))
 
-            await client.subscribe(cp, cb, prefer_notify=True)
-            trace.append(ev("cccd", b=b, c=ci, v=1))
-            await client.subscribe(cp, lambda value, b=b, ci=ci: trace.append(ev("cb", b=b, kind="ind", c=ci, len=len(value))), prefer_notify=False)
-            trace.append(ev("cccd", b=b, c=ci, v=2))
+            char_proxy[(b, ci)] = cp
+            if family != "unsolicited":
+                # (family "unsolicited": nothing registered in the client's own table, the CCCD is only written raw below)
+                trace.append(ev("sub", b=b, c=ci, kind="ntf"))
+                await client.subscribe(cp, cb, prefer_notify=True)
+                trace.append(ev("cccd", b=b, c=ci, v=1))
+                trace.append(ev("sub", b=b, c=ci, kind="ind"))
+                await client.subscribe(cp, lambda value, b=b, ci=ci: trace.append(ev("cb", b=b, kind="ind", c=ci, len=len(value))), prefer_notify=False)
+                trace.append(ev("cccd", b=b, c=ci, v=2))
             cccd_proxy[(b, ci)] = next(dp for dp in cp.descriptors if dp.type == UUID("2902"))
     cccd = {}
     for (b, ci), dp in sorted(cccd_proxy.items()):
@@ -235,6 +261,16 @@ async def run_scenario(rng, family, seed=0, eatt=(True, True), mtus=(64, 23), ma
             b = rng.choice(eatt_b)
             kind = "ntf" if family == "one_eatt_notify" else "ind"
             await call("notify_subscriber" if kind == "ntf" else "indicate_subscriber", kind, ci, [b], rng.random() < 0.3, bearers[b]["sbearer"])
+        elif family == "unsolicited":
+            # no callback registered on any client: whoever is subscribed on the SERVER (raw CCCD write) or forced gets the
+            # PDU, nobody is called, and every indication is confirmed all the same
+            kind = rng.choice(("ind", "ind", "ntf"))
+            shape = rng.choice(("connection", "force", "all"))
+            if shape == "all":
+                await call("notify_subscribers" if kind == "ntf" else "indicate_subscribers", kind, ci, all_b, False)
+            else:
+                await call("notify_subscriber" if kind == "ntf" else "indicate_subscriber", kind, ci,
+                           conn_targets(i) if shape == "connection" else [2 * i + 1], shape == "force", sconns[i])
         elif family == "concurrent":
             # two indications (and a notification) in flight at once: one outstanding per bearer
             await asyncio.gather(
@@ -245,6 +281,25 @@ async def run_scenario(rng, family, seed=0, eatt=(True, True), mtus=(64, 23), ma
         else:
             raise ValueError(family)
         await asyncio.sleep(rng.choice([0, 0.01, 1.0]))
+    if family == "unsolicited":
+        # Client.unsubscribe racing an indication: the callback is dropped first, the CCCD write of 0 follows; an indication
+        # in flight at that moment finds nobody to call and is confirmed.  The CCCD writes are logged where they take effect.
+        for n in range(3):
+            i, ci = rng.choice((0, 1)), rng.choice((1, 2))
+            b = 2 * i + 1
+            client, cp = bearers[b]["client"], char_proxy[(b, ci)]
+            trace.append(ev("sub", b=b, c=ci, kind="ind"))
+            await client.subscribe(cp, lambda value, b=b, ci=ci: trace.append(ev("cb", b=b, kind="ind", c=ci, len=len(value))), prefer_notify=False)
+            trace.append(ev("cccd", b=b, c=ci, v=2))
+            watch[(b, cccd_proxy[(b, ci)].handle)] = ci
+            t = asyncio.ensure_future(call("indicate_subscriber", "ind", ci, conn_targets(i), False, sconns[i]))
+            await asyncio.sleep(rng.choice([0, 0, 0.001, 0.003, 0.01]))
+            trace.append(ev("unsub", b=b, c=ci))
+            await client.unsubscribe(cp)
+            trace.append(ev("unsubd", b=b, c=ci))
+            await t
+            del watch[(b, cccd_proxy[(b, ci)].handle)]
+            await asyncio.sleep(rng.choice([0, 0.5]))
     await asyncio.sleep(100)
     trace.append(ev("quiesce", p=len(pending)))
     return trace, info
